@@ -26,6 +26,9 @@
 (*   - an image released in this call has nothing live afterwards, a live image has something     *)
 (*     live (its structure), an allocation that outlives the call has an owner;                   *)
 (*   - at End nothing is live.                                                                    *)
+(* "press" is the glyph table before the call as the library reports it (live glyphs, tombstones, *)
+(* water marks); it is not judged: checks/life.py reads it to measure which situations            *)
+(* (Image!GPressure) the recorded thaws were in.                                                   *)
 (* Nothing is demanded about how many allocations an image uses or when a setter reallocates.     *)
 EXTENDS Image, TraceIO
 
@@ -105,7 +108,11 @@ TOp ==
        /\ ~ev.ovf
        /\ c \in LifeCalls(life)            \* the script respects the client's obligations
        /\ st.ok
-       /\ \E T \in LifeStep(life, c) :
+       \* a thaw may let go any subset of the cached copies (GThawSucc): the one to examine is the set of glyphs
+       \* something of which was released in this call (enumerating all subsets of a full table is not needed)
+       /\ \E T \in (IF c.op = "gthaw"
+                     THEN {GDropAll(Begin(life), {k \in life.glyphs : GOwner(k) \in st.freed})}     \* a member of GThawSucc
+                     ELSE LifeStep(life, c)) :
              /\ Explains(T, ev, c, st, newlive)
              /\ life' = T        \* (T.dev names the outcome taken where the statement leaves it open; both are accepted)
        /\ live' = newlive
